@@ -39,10 +39,32 @@ def commentStart : Text → Nat → StripSt → Option Nat
       else commentStart rest (i + 1) { st with prev := ch }
     else commentStart rest (i + 1) { st with prev := ch }
 
-def stripComments (line : Text) : Text :=
-  match commentStart line 0 {} with
-  | some idx => trim (line.take idx)
-  | none => trim line
+/-- the state in which the scan of `strip_comments_in` stops: at the comment, or at the end of the line
+    (repair D26: the depths and the quote state are carried to the next line) -/
+def endState : Text → StripSt → StripSt
+  | [], st => st
+  | ch :: rest, st =>
+    if ch == '"' then endState rest { st with inQuotes := !st.inQuotes, prev := ch }
+    else if st.inQuotes then endState rest { st with prev := ch }
+    else if ch == '(' then endState rest { st with round := st.round + 1, prev := ch }
+    else if ch == '[' then endState rest { st with square := st.square + 1, prev := ch }
+    else if ch == ')' then endState rest { st with round := st.round - 1, prev := ch }
+    else if ch == ']' then endState rest { st with square := st.square - 1, prev := ch }
+    else if st.round == 0 && st.square == 0 then
+      if ch == '#' || ch == '%' then st
+      else if ch == '/' && st.prev == '/' then st
+      else endState rest { st with prev := ch }
+    else endState rest { st with prev := ch }
+
+/-- `strip_comments_in`: the line without its comment, and the nesting carried to the next line -/
+def stripCommentsIn (st : StripSt) (line : Text) : Text × StripSt :=
+  let st0 : StripSt := { st with prev := 'x' }
+  ((match commentStart line 0 st0 with
+    | some idx => trim (line.take idx)
+    | none => trim line), endState line st0)
+
+/-- `strip_comments` (a line on its own) -/
+def stripComments (line : Text) : Text := (stripCommentsIn {} line).1
 
 /-- `check_last_char`: `true` = the line may end here -/
 def checkLastChar (line : Text) : Bool :=
@@ -51,13 +73,16 @@ def checkLastChar (line : Text) : Bool :=
   | some last => last == '-' || last == ',' || last == '.' || last == '=' || last == ';'
 
 /-- the loop of `read_facts_and_rules`: `fail` = "Check end of line" -/
-def joinLines : List Text → Text → Res Text
-  | [], acc => .ok acc
-  | line :: rest, acc =>
-    let l := stripComments line
-    if l.isEmpty then joinLines rest acc
+def joinLinesIn : List Text → Text → StripSt → Res Text
+  | [], acc, _ => .ok acc
+  | line :: rest, acc, st =>
+    let r := stripCommentsIn st line
+    let l := r.1
+    if l.isEmpty then joinLinesIn rest acc r.2
     else if !checkLastChar l then .fail
-    else joinLines rest (acc ++ l ++ (if l.getLast? == some '.' then [] else [' ']))
+    else joinLinesIn rest (acc ++ l ++ (if l.getLast? == some '.' then [] else [' '])) r.2
+
+def joinLines (lines : List Text) (acc : Text) : Res Text := joinLinesIn lines acc {}
 
 structure SepSt where
   cur : Text := []
